@@ -1133,6 +1133,19 @@ class Ctx:
             self.origins.setdefault(b, self.origin)
         if k[0] == 'cmp':
             self._refine(k[1], k[2])
+            if k[1] in ('<', '<=', '=='):
+                # c*|p| + rest <= 0 with c > 0 gives c*p + rest <= 0 and -c*p + rest <= 0 (p <= |p| and -p <= |p|)
+                d = k[2]
+                for m, c in list(d.t.items()):
+                    if len(m) == 1 and m[0][1] == 1 and m[0][0][0] == 'abs' and c > 0 and isinstance(m[0][0][1], Poly):
+                        rest = Poly({mm: cc for mm, cc in d.t.items() if mm != m})
+                        op = '<' if k[1] == '<' else '<='
+                        for sgn in (1, -1):
+                            nb = B(('cmp', op, rest + m[0][0][1].scale(c * sgn)))
+                            if nb not in self.facts and self.decide(nb) is None:
+                                self.facts.append(nb)
+                                if self.origin is not None:
+                                    self.origins.setdefault(nb, self.origin)
         return True
 
     def _refine(self, op, d):
@@ -1648,6 +1661,11 @@ def t_abs(p, ctx):
         return p
     if hi <= 0:
         return -p
+    # |p| and |-p| are one atom: the sign is fixed by the first monomial in a deterministic order
+    if p.t:
+        m0 = min(p.t, key=lambda m: repr(m))
+        if p.t[m0] < 0:
+            p = -p
     return Poly.atom(('abs', p))
 
 
